@@ -21,6 +21,12 @@ REFUTED = ("postcondition not satisfied", "precondition not satisfied", "possibl
            "loop invariant", "unreachable", "decreases not satisfied", "recommendation not met")
 CANARY_FN = "rp_canary_must_fail"
 
+LABEL_DEPS = {}
+try:
+    LABEL_DEPS = json.load(open(os.path.join(VERIF, "label_deps.json"))).get("clauses", {})
+except Exception:
+    pass
+
 def label_props(label):
     head = label.split(".")[0]
     ids = [x for x in head.split("+") if re.match(r"^C\d\d$", x)]
@@ -95,6 +101,9 @@ def classify(run, lmap, fns_by_key):
         props = set()
         kind = msg.split(":")[0]
         if label: props |= set(label_props(label))
+        if label and key:
+            # properties whose obligations rest on this clause in the proofs of its callers (tools/label_deps.py)
+            props |= set(LABEL_DEPS.get("%s#%s" % (key, label), {}).get("props", []))
         safety = []
         if key and key in fns_by_key: safety = fns_by_key[key].get("safety", [])
         body_level = not (label and part in ("ensures", "theorem"))
@@ -116,8 +125,8 @@ def classify(run, lmap, fns_by_key):
     return failures, frontend, canary
 
 AMBIGUOUS = {"from", "into", "as_ref", "deref", "default", "fmt", "eq", "ne", "new", "len", "clone", "try_from", "try_into", "add", "to_string", "unwrap", "map_err", "to_vec", "to_owned"}
-def call_cone(fns_by_key):
-    """property -> set of fn keys its proof depends on: closure of a name-based call graph from the functions that carry its obligations"""
+def call_edges(fns_by_key):
+    """name-based call graph: fn key -> set of fn keys its body may call"""
     by_name = {}
     for k, f in fns_by_key.items(): by_name.setdefault(f["fn"], []).append(k)
     def type_of(k):
@@ -142,6 +151,11 @@ def call_cone(fns_by_key):
             for c in by_name.get(m.group(1), []):
                 if fns_by_key[c]["impl"] == "-": out.add(c)
         out.discard(k); edges[k] = out
+    return edges
+
+def call_cone(fns_by_key):
+    """property -> set of fn keys its proof depends on: closure of a name-based call graph from the functions that carry its obligations"""
+    edges = call_edges(fns_by_key)
     cone = {}
     for p in PROP_IDS:
         roots = set()
